@@ -25,6 +25,20 @@ add('C18', 'fault_enumeration',
     'peer-opened id. Held/violated on those executions only.',
     'Expected-code table written from RFC 7540 sections 4-6; last-stream-id oracle accepts the offending stream-opening frame id.')
 
+add('C19', 'exploration',
+    'runtime monitoring: post-closure trace oracle (only GOAWAY on the wire, every emitting call raises ProtocolError) over generated histories',
+    'Histories reach closure by each of the three routes from varied stream states (incl. unacknowledged DATA, pending '
+    'settings, undrained output) and are followed by 5-40 random public calls and received frames, each judged. '
+    'Held/violated on those executions only.',
+    'Arguments of post-closure calls are valid-for-an-open-connection so that only the closed state can refuse them.')
+
+add('C26', 'exploration',
+    'runtime monitoring: FIFO exactly-once matching of PING payloads against PING-ACK frames and events',
+    'Unique 8-byte payloads make the history unambiguous; after every successful receive_data the ACK sequence on the wire '
+    'must equal the delivered PING sequence (order, multiplicity, bytes), events must mirror frames, ACKs are never answered, '
+    'ping() emits exactly one PING or raises. Bursts up to 200 PINGs per call, arbitrary chunking, both roles.',
+    'Input side is parsed by the independent codec; GOAWAY ends a case (pending output is legitimately discarded).')
+
 NOT_BUILT_REASON = 'check not built yet in this session (planned in DESIGN.md; no verdict claimed)'
 
 def main():
